@@ -1,6 +1,6 @@
 /*UNIT
 {"props": ["C17"], "kind": "K5", "tier": "quick", "timeout": 900,
- "cbmc": ["--unwind", "8"],
+ "cbmc": ["--unwind", "8"], "extra_src": ["stubs/mem_sampled.c"],
  "bounded": "one sequence followed by the block delimiter (one real iteration of the transcription loop), literal/match/last-literal lengths <= 6; all field values, positions, dictionary size, window log, minMatch symbolic",
  "functions": ["ZSTD_copySequencesToSeqStoreExplicitBlockDelim","ZSTD_copySequencesToSeqStoreNoBlockDelim","ZSTD_validateSequence","ZSTD_finalizeOffBase","ZSTD_storeSeq"],
  "floor": 50,
@@ -16,7 +16,8 @@ void harness(void)
     IN(vu32, ll); IN(vu32, ml); IN(vu32, off); IN(vu32, lastLits);
     IN(vsz, pos0); IN(vu32, dictSize); IN(vu32, windowLog); IN(vu32, minMatch); IN(vint, hasProducer); IN(vint, repSearch);
     IN(vu32, r0); IN(vu32, r1); IN(vu32, r2);
-    ZSTD_CCtx* const c = (ZSTD_CCtx*)malloc(sizeof(ZSTD_CCtx));
+    static ZSTD_CCtx cctx_obj;              /* typed object: CBMC treats its fields separately */
+    ZSTD_CCtx* const c = &cctx_obj;
     ZSTD_compressedBlockState_t prevB, nextB;
     seqDef seqbuf[4];
     BYTE litbuf[SRCMAX + WILDCOPY_OVERLENGTH];
@@ -25,7 +26,6 @@ void harness(void)
     ZSTD_sequencePosition sp;
     size_t blockSize, r;
     static BYTE dictAnchor[1];
-    ASSUME(c != NULL);
     ASSUME(ll <= 6 && ml <= 6 && lastLits <= 6);
     ASSUME(windowLog >= ZSTD_WINDOWLOG_MIN && windowLog <= ZSTD_WINDOWLOG_MAX);
     ASSUME(minMatch >= ZSTD_MINMATCH_MIN && minMatch <= ZSTD_MINMATCH_MAX);
